@@ -65,6 +65,20 @@ impl Build for Core {
     }
 }
 
+impl Build for Wide {
+    fn build(op: &str, s: &[Slot], b: &[Vec<Slot>], pays: &[&str]) -> Option<Self> {
+        let pay = pays.first().copied();
+        Some(match op {
+            "v" => Wide::V(s[0]),
+            "c0" => Wide::C0(),
+            "wd" => Wide::Wd(aid(), aid(), aid(), aid(), aid(), aid(), aid(), aid(), aid(), aid()),
+            "wm" => Wide::Wm(pay?.parse().ok()?, s[0], aid(), aid(), aid(), aid(), aid(), aid(), aid(), b1(b.last()?)),
+            "" => Wide::Num(pay?.parse().ok()?),
+            _ => return None,
+        })
+    }
+}
+
 impl Build for Arith {
     fn build(op: &str, s: &[Slot], b: &[Vec<Slot>], pays: &[&str]) -> Option<Self> {
         let pay = pays.first().copied();
@@ -288,7 +302,7 @@ pub struct RtCase {
 }
 
 fn rt_langs() -> Vec<LangId> {
-    vec![LangId::Core, LangId::Arith, LangId::Sdql, LangId::ArrayLang, LangId::Arith2, LangId::Pay]
+    vec![LangId::Core, LangId::Arith, LangId::Sdql, LangId::ArrayLang, LangId::Arith2, LangId::Pay, LangId::Wide]
 }
 
 fn run_rt(c: &RtCase, obs: &mut Obs) -> Result<(), String> {
@@ -299,6 +313,7 @@ fn run_rt(c: &RtCase, obs: &mut Obs) -> Result<(), String> {
         LangId::ArrayLang => run_rt_l::<ArrayLang>(c, obs),
         LangId::Arith2 => run_rt_l::<Arith2>(c, obs),
         LangId::Pay => run_rt_l::<Pay>(c, obs),
+        LangId::Wide => run_rt_l::<Wide>(c, obs),
         _ => Err("language without direct constructors".into()),
     }
 }
@@ -362,6 +377,72 @@ fn rt_strategy() -> BoxedStrategy<RtCase> {
             RtCase { lang, naming, pat, is_term }
         })
         .boxed()
+}
+
+// ---------------------------------------------------------------------------------------------
+// sessions: several languages parsed and printed in ONE thread (every other stage gives each case a thread of its own, so
+// state the parser keeps per thread - caches, interners - never sees a second language)
+// ---------------------------------------------------------------------------------------------
+
+#[derive(Clone, Debug, Serialize, Deserialize)]
+pub enum SessionStep {
+    RoundTrip(RtCase),
+    Text(TextCase),
+}
+
+#[derive(Clone, Debug, Serialize, Deserialize)]
+pub struct SessionCase {
+    pub steps: Vec<SessionStep>,
+}
+
+/// what a parse of `text` looks like from outside: printed values of the three parsers, or their rejection
+fn parse_view<L: Language>(text: &str) -> (Option<String>, Option<String>, Option<String>) {
+    (Pattern::<L>::parse(text).ok().map(|p| p.to_string()), RecExpr::<L>::parse(text).ok().map(|p| p.to_string()), MultiPattern::<L>::parse(text).ok().map(|p| p.to_string()))
+}
+
+fn run_session(c: &SessionCase, obs: &mut Obs) -> Result<(), String> {
+    let mut langs = std::collections::BTreeSet::new();
+    for (i, st) in c.steps.iter().enumerate() {
+        match st {
+            SessionStep::RoundTrip(rc) => {
+                langs.insert(rc.lang);
+                let mut o = Obs::default();
+                run_rt(rc, &mut o).map_err(|e| format!("step {i} (after {} earlier steps in the same thread): {e}", i))?;
+                obs.cmp(o.comparisons);
+            }
+            SessionStep::Text(tc) => {
+                langs.insert(tc.lang);
+                let mut o = Obs::default();
+                run_text(tc, &mut o).map_err(|e| format!("step {i}: {e}"))?;
+                // the verdict on a text does not depend on what the thread parsed before: same view from a fresh thread
+                let here = crate::with_lang!(tc.lang, L => parse_view::<L>(&tc.text));
+                let tc2 = tc.clone();
+                let fresh = std::thread::Builder::new()
+                    .stack_size(16 << 20)
+                    .spawn(move || crate::with_lang!(tc2.lang, L => parse_view::<L>(&tc2.text)))
+                    .map_err(|e| e.to_string())?
+                    .join()
+                    .map_err(|_| format!("step {i}: parsing {:?} panicked in a fresh thread", tc.text))?;
+                obs.cmp(3);
+                if here != fresh {
+                    return Err(format!("step {i}: [{:?}] {:?} parses to {:?} after the earlier steps of this thread, but to {:?} in a fresh thread", tc.lang, tc.text, here, fresh));
+                }
+            }
+        }
+    }
+    if langs.len() >= 2 {
+        obs.label("two-or-more-languages-in-one-thread");
+        obs.nontrivial = true;
+    }
+    Ok(())
+}
+
+fn session_strategy() -> BoxedStrategy<SessionCase> {
+    let step = crate::one_of![
+        3 => rt_strategy().prop_map(SessionStep::RoundTrip),
+        2 => text_strategy().prop_map(SessionStep::Text),
+    ];
+    proptest::collection::vec(step, 2..10).prop_map(|steps| SessionCase { steps }).boxed()
 }
 
 // ---------------------------------------------------------------------------------------------
@@ -648,10 +729,34 @@ fn text_strategy() -> BoxedStrategy<TextCase> {
         let inner = format!("({} {})", ops[opi], vec![tok; n].join(" "));
         TextCase { lang, text: if nest { format!("({} {} {})", ops[(opi + 1) % ops.len()], inner, tok) } else { inner } }
     });
+    // nodes of operators with 10 / 11 argument positions (more than the 8 bits of the parser's payload mask): well-formed
+    // except for one position that holds something that is not a term, is missing, or is surplus
+    let wide = (any::<bool>(), proptest::collection::vec(proptest::sample::select(vec!["c0", "1", "(v $a)", "?a", "(wd c0 c0 c0 c0 c0 c0 c0 c0 c0 c0)"]), 10), 0usize..11, proptest::sample::select(vec!["zzz", "9x", "$a", "", "c0 c0", "wd", "(v)", "?", "c0"])).prop_map(|(wm, args, pos, bad)| {
+        let mut a: Vec<String> = args.iter().map(|s| s.to_string()).collect();
+        if wm {
+            // (wm <u32> $slot k1..k7 $bound k8)
+            a.truncate(8);
+            let mut parts: Vec<String> = vec!["7".into(), "$s".into()];
+            parts.extend(a[..7].iter().cloned());
+            parts.push("$b".into());
+            parts.push(a[7].clone());
+            let pos = pos.min(parts.len() - 1);
+            parts[pos] = bad.to_string();
+            TextCase { lang: LangId::Wide, text: format!("(wm {})", parts.join(" ")) }
+        } else {
+            if pos < a.len() {
+                a[pos] = bad.to_string();
+            } else {
+                a.push(bad.to_string());
+            }
+            TextCase { lang: LangId::Wide, text: format!("(wd {})", a.join(" ")) }
+        }
+    });
     crate::one_of![
         8 => (proptest::sample::select(langs), text).prop_map(|(lang, text)| TextCase { lang, text }),
         2 => near,
         1 => long,
+        1 => wide,
     ]
     .boxed()
 }
@@ -685,6 +790,25 @@ pub fn property(tier: Tier) -> Property {
             panic_is_violation: true,
             render: |c: &TextCase| format!("[{:?}] {:?}", c.lang, c.text),
             rule: "token soup, truncations, splices and point mutations of valid texts, random printable strings, near misses of multi-patterns, single nodes with 7-300 arguments, fed to RecExpr::parse, Pattern::parse and MultiPattern::parse of 8 languages; no panic, accepted values well formed; non-trivial = the text tokenizes but is rejected by the parser; distinct by text",
+            case_timeout_s: 60,
+            exhaustive: false,
+        }),
+        Box::new(Stage {
+            name: "session",
+            source: random(session_strategy, tier.pick(12_000, 200_000)),
+            run: run_session,
+            panic_is_violation: true,
+            render: |c: &SessionCase| {
+                c.steps
+                    .iter()
+                    .map(|s| match s {
+                        SessionStep::RoundTrip(c) => format!("roundtrip [{:?}] {}", c.lang, render_pat(&c.pat, &c.naming)),
+                        SessionStep::Text(c) => format!("parse [{:?}] {:?}", c.lang, c.text),
+                    })
+                    .collect::<Vec<_>>()
+                    .join(" ; ")
+            },
+            rule: "2-9 steps in ONE thread, each a round-trip of a generated term / pattern or the parsing of an arbitrary text, in randomly chosen languages (the same spelling is a term of one language and a payload or nothing in another): every round-trip must hold and every text must get the verdict and printed value it gets in a fresh thread; non-trivial = at least two languages in the thread; distinct by rendered steps",
             case_timeout_s: 60,
             exhaustive: false,
         }),
